@@ -69,6 +69,9 @@ LEAVES = [
     ("t_i64_0d", lambda: torch.tensor(5)),
     ("t_grad", lambda: torch.tensor([1.0, 2.0], requires_grad=True)),
     ("t_empty", lambda: torch.zeros((0, 2))),
+    ("t_view_grad", lambda: torch.arange(8.0)[2:5].detach().requires_grad_(True)),          # a view of a larger storage
+    ("t_view_t", lambda: torch.arange(6.0).reshape(2, 3).t()[1:]),                           # non-contiguous view
+    ("t_param_view", lambda: torch.nn.Parameter(torch.arange(8.0)[1:4])),
     ("nn_linear", _linear),
     ("path", lambda: Path("some") / "dir" / "f.txt"),
     ("sub_obj", _sub),
@@ -153,6 +156,7 @@ def eq(a, b):
         return list(sa) == list(sb) and all(torch.equal(sa[k], sb[k]) for k in sa)
     if isinstance(a, torch.Tensor) or isinstance(b, torch.Tensor):
         return (isinstance(a, torch.Tensor) and isinstance(b, torch.Tensor) and a.dtype == b.dtype
+                and isinstance(a, torch.nn.Parameter) == isinstance(b, torch.nn.Parameter)
                 and a.shape == b.shape and a.requires_grad == b.requires_grad and bool(torch.equal(a, b)))
     if isinstance(a, np.random.Generator) or isinstance(b, np.random.Generator):
         return isinstance(a, np.random.Generator) and isinstance(b, np.random.Generator)
